@@ -1,7 +1,7 @@
 (* C06/Property.v — property theorems only. *)
 From Coq Require Import String List Bool.
-From Verif Require Import Base.Str Base.Py C06.Model C06.Spec C06.Proofs C06.Reflect C06.Source.
-From VerifGen Require Import C06Tables C06Src.
+From Verif Require Import Base.Str Base.Py Base.Py2 C06.Model C06.Spec C06.Proofs C06.Reflect C06.Source C06.Source2.
+From VerifGen Require Import C06Tables C06Src C06Src2.
 
 (* C06: for every outstanding set, InResponseTo placement, status, version and shape the modelled
    decision satisfies correlation, status, shape and the two completeness clauses. *)
@@ -68,6 +68,47 @@ Theorem c06_back_channel_ignores_outstanding : forall y o a,
 Proof. exact back_channel_ignores_outstanding. Qed.
 Print Assumptions c06_back_channel_ignores_outstanding.
 
+(* C06 over configurations: however the SP option allow_unsolicited is written in the configuration (absent, None,
+   a boolean, a number, any string) and however the configuration object was made, the decision of a receiver set
+   up that way (the code as it is now, with 6bdc97cd) satisfies the property with "unsolicited responses explicitly
+   allowed" := what the option says.  No guard. *)
+Theorem c06_configured : forall s y, spec_c s y (receive_cfg s y).
+Proof. exact c06_configured_holds. Qed.
+Print Assumptions c06_configured.
+
+(* the receiver runs with exactly what the option says; an option that says nothing definite builds no receiver,
+   hence no identity whatever is delivered *)
+Theorem c06_option_read_as_written : forall o, effective_allow o = meaning o.
+Proof. exact effective_allow_is_meaning. Qed.
+Print Assumptions c06_option_read_as_written.
+
+Theorem c06_undefined_option_no_identity : forall s y, meaning (opt s) = None -> receive_cfg s y = NoId.
+Proof. exact undefined_option_no_identity. Qed.
+Print Assumptions c06_undefined_option_no_identity.
+
+(* the documented spellings and numbers are read as documented *)
+Theorem c06_documented_spellings :
+  effective_allow OAbsent = Some false /\ effective_allow ONone = Some false /\ (forall b, effective_allow (OBool b) = Some b)
+  /\ effective_allow (OStr "true") = Some true /\ effective_allow (OStr "false") = Some false
+  /\ effective_allow (OInt 0) = Some false /\ effective_allow (OInt 1) = Some true.
+Proof. exact documented_effective. Qed.
+Print Assumptions c06_documented_spellings.
+
+(* C06-F4, fixed by 6bdc97cd: in the pinned state ([receive_cfg_v0]) allow_unsolicited: "False" says no and the
+   receiver accepted an unsolicited Response; outside that class the pinned state satisfied the property *)
+Theorem c06_misread_option_v0_refuted :
+  exists s y, misread (opt s) = true /\ meaning (opt s) = Some false /\ ~ spec_c s y (receive_cfg_v0 s y).
+Proof. exact misread_option_v0_refuted. Qed.
+Print Assumptions c06_misread_option_v0_refuted.
+
+Theorem c06_configured_v0 : forall s y, misread (opt s) = false -> spec_c s y (receive_cfg_v0 s y).
+Proof. exact c06_configured_v0_holds. Qed.
+Print Assumptions c06_configured_v0.
+
+Theorem c06_configured_spec_b_sound : forall s y v, spec_c_b s y v = true -> spec_c s y v.
+Proof. exact spec_c_b_sound. Qed.
+Print Assumptions c06_configured_spec_b_sound.
+
 (* regenerated-table obligations: every defined status code maps to the error class its name
    demands; codes and classes are pairwise distinct; the table covers all 21 codes *)
 Theorem c06_table_names :
@@ -98,3 +139,37 @@ Theorem c06_source_check_sc_irt : forall i l ss,
   exists b, check_sc_irt i l = Some b /\ src_check_sc_irt (enc_self ss) (PStr i) = PBool b.
 Proof. exact src_check_sc_irt_is_model. Qed.
 Print Assumptions c06_source_check_sc_irt.
+
+(* tie of the configuration part to the source TEXT (coq/gen/C06Src2.v, translator v2, re-translated on this run):
+   the statements of Config.load_special between cnf[arg] and self.setattr compute load_special_val ... *)
+Theorem c06_source_load_special_value : forall v,
+  present v = true -> src2_load_special_value (enc v) = enc (load_special_val v).
+Proof. exact src_load_special_value. Qed.
+Print Assumptions c06_source_load_special_value.
+
+(* ... the statements of Base.__init__ between config.getattr(attr, "sp") and setattr(self, attr, val), with the
+   default attribute_defaults["allow_unsolicited"], compute client_init_val (SAMLError where it has no value) ... *)
+Theorem c06_source_option_value : forall attr v, ascii_opt v ->
+  src2_option_value attr (stored v) src2_allow_unsolicited_default = enc_result (client_init_val (load_special_val v)).
+Proof. exact src_option_value. Qed.
+Print Assumptions c06_source_option_value.
+
+(* ... Config.setattr / Config.getattr store the option under context "sp" and read it back unchanged whatever the
+   class and current context of the configuration object; a missing option reads as None ... *)
+Theorem c06_source_setattr_getattr : forall cls ctx v, present v = true ->
+  exists conf1,
+    src2_config_setattr (conf0 cls ctx) (PStr "sp") (PStr "allow_unsolicited") (enc v) = PList (PNone :: conf1 :: nil)
+    /\ src2_config_getattr conf1 (PStr "allow_unsolicited") (PStr "sp") = enc v
+    /\ src2_config_getattr (conf0 cls ctx) (PStr "allow_unsolicited") (PStr "sp") = PNone.
+Proof. exact src_setattr_getattr. Qed.
+Print Assumptions c06_source_setattr_getattr.
+
+(* ... and either the client is refused (SAMLError) or the truth value Python gives the resulting attribute is the
+   model's effective_allow *)
+Theorem c06_source_option_is_effective_allow : forall attr v, ascii_opt v ->
+  match effective_allow v with
+  | Some b => p2_branch (src2_option_value attr (stored v) src2_allow_unsolicited_default) = if b then BTrue else BFalse
+  | None => src2_option_value attr (stored v) src2_allow_unsolicited_default = PExc "SAMLError"
+  end.
+Proof. exact src_option_is_effective_allow. Qed.
+Print Assumptions c06_source_option_is_effective_allow.
